@@ -462,6 +462,39 @@ pub mod life {
         bits
     }
 
+    /// Shared (Arc-based) receive futures and waker replacement: the future is polled with waker A, re-polled with waker B
+    /// (same data pointer, other vtable - `will_wake` is false), then the last sender handle is dropped (implicit close):
+    /// the pending future must have been woken through B, the waker of its latest poll, and must then resolve to None.
+    pub fn shared_waker<L: Flavour, S: Src>(s: &mut S, p: u32) -> u32 {
+        let (tx, rx) = L::mk();
+        let c = DualCell::new();
+        let mut f = ManuallyDrop::new(L::observe(&rx));
+        let both_pending = dual_repoll(unsafe { Pin::new_unchecked(&mut *f) }, &c);
+        if (p & (P10 | P12 | P13)) != 0 { assert!(both_pending, "C10+C12+C13 shared receive future: completed on a fresh open channel"); }
+        // optionally a third poll with A again (the stored waker must follow the LATEST poll every time)
+        let third = s.flag();
+        if third && both_pending {
+            let wa = ManuallyDrop::new(mk_waker_a(&c));
+            let mut cx = Context::from_waker(&wa);
+            if let Poll::Ready(o) = unsafe { Pin::new_unchecked(&mut *f) }.poll(&mut cx) { L::forget_output(o); }
+        }
+        drop(tx);
+        if both_pending && (p & (P10 | P12 | P13)) != 0 {
+            let latest = if third { c.a.get() } else { c.b.get() };
+            assert!(latest >= 1, "C10+C12+C13 shared receive future: pending at the (implicit) close but not woken through the waker of its latest poll");
+            let wb = ManuallyDrop::new(mk_waker_b(&c));
+            let mut cx = Context::from_waker(&wb);
+            match unsafe { Pin::new_unchecked(&mut *f) }.poll(&mut cx) {
+                Poll::Ready(o) => { assert!(L::is_none(&o), "C10+C12+C13 shared receive future: yielded a value that was never sent"); L::forget_output(o); }
+                Poll::Pending => assert!(false, "C10+C12+C13 shared receive future: still pending after the channel was closed"),
+            }
+        }
+        core::mem::forget(rx);
+        let bits = third as u32;
+        s.reached(bits);
+        bits
+    }
+
     /// C11, shared mpmc handle counting WITHOUT futures (the observer-future lifecycle exhausts memory for mpmc): a symbolic
     /// clone/drop script over 2 sender + 2 receiver handle slots; after every operation the channel must be closed exactly if
     /// the last handle of a side is gone, observed without side effects (try_receive on an empty open channel reports Empty,
@@ -656,6 +689,10 @@ pub mod life {
             "shared_stream_min" => { shared_stream_min::<NL, _>(s, p); }
             "shared_mpmc_min" => { shared_mpmc_min::<NL, _>(s, p); }
             "mpmc_handles" => { mpmc_handles::<NL, _>(s, 64, p); }
+            "shared_waker_mpmc" => { shared_waker::<Mpmc<NL>, _>(s, p); }
+            "shared_waker_oneshot" => { shared_waker::<Oneshot<NL>, _>(s, p); }
+            "shared_waker_oneshot_bc" => { shared_waker::<OneshotBc<NL>, _>(s, p); }
+            "shared_waker_state" => { shared_waker::<State<NL>, _>(s, p); }
             "shared_polls" => { shared_polls::<NL, _>(s, p); }
             "shared_polls_check" => { shared_polls::<CheckLock, _>(s, p); }
             "shared_mpmc" => { shared_mpmc::<NL, _>(s, 64, p); }
@@ -687,6 +724,18 @@ pub mod life {
                 }
             };
         }
+        #[kani::proof]
+        #[kani::unwind(4)]
+        fn shared_waker_mpmc() { let _ = shared_waker::<Mpmc<NL>, _>(&mut KaniSrc, P10); }
+        #[kani::proof]
+        #[kani::unwind(4)]
+        fn shared_waker_oneshot() { let _ = shared_waker::<Oneshot<NL>, _>(&mut KaniSrc, P12); }
+        #[kani::proof]
+        #[kani::unwind(4)]
+        fn shared_waker_oneshot_bc() { let _ = shared_waker::<OneshotBc<NL>, _>(&mut KaniSrc, P12); }
+        #[kani::proof]
+        #[kani::unwind(4)]
+        fn shared_waker_state() { let _ = shared_waker::<State<NL>, _>(&mut KaniSrc, P13); }
         #[kani::proof]
         #[kani::unwind(5)]
         fn mpmc_handles_n3() { let b = mpmc_handles::<NL, _>(&mut KaniSrc, 3, P11); kani::cover!(b & W_CLOSED_BY_LAST != 0, "W mpmc handles: closed by the last handle after a clone/drop sequence"); }
